@@ -29,7 +29,7 @@ for d in sorted(glob.glob(base + '/*/patch.diff'), key=_key):
                 lines = [l for l in out.splitlines() if not l.startswith('    ') and (' violated [' in l or ' undecided [' in l)]
                 fired.append((p, lines[:3]))
     finally:
-        subprocess.run(['git', 'checkout', '--', '.'], cwd=REPO)
+        subprocess.run('git checkout -q -- . && git clean -fdq', cwd=REPO, shell=True)
     total += 1
     files = [l[6:].strip() for l in open(d) if l.startswith('+++ b/')]
     if fired:
